@@ -29,6 +29,8 @@ FAMILIES = {
     "with tables": lambda n: "WITH " + ", ".join("w%d AS (SELECT a FROM t)" % i for i in range(n)) + " SELECT 1",
     "columns of create table": lambda n: "CREATE TABLE t (" + ", ".join("c%d INT(11) NOT NULL COMMENT 'x'" % i for i in range(n)) + ")",
     "long literal and comment": lambda n: "SELECT '" + "x" * (n * 5) + "' /* " + "c " * (n * 2) + "*/ FROM t -- " + "z" * n,
+    "nested calls": lambda n: "SELECT " + "f(" * (n // 4) + ", ".join("1" for _ in range(n // 4)) + ")" * (n // 4) + " FROM t",
+    "nested windows": lambda n: "SELECT " + "sum(1 + " * (n // 8) + "x" + " OVER (ORDER BY a))" * (n // 8) + " FROM t",
     "blanks": lambda n: "SELECT" + " " * (n * 4) + "a" + "\n" * n + "FROM\t\tt",
     "rejected: unterminated bracket at the end": lambda n: "SELECT " + ", ".join("c%d" % i for i in range(n)) + " FROM t WHERE (",
     "rejected: stray token at the end": lambda n: "SELECT " + ", ".join("c%d" % i for i in range(n)) + " FROM t WHERE a = 1 )",
@@ -83,26 +85,31 @@ def run(run):
         if v:
             fails.append({"kind": "input", "stream": name, "text": t[:400], "request": rq, "oracle_verdict": v})
         if n:
-            table.setdefault(name, {})[n] = (d["handle"], w, d["chars"], d["tokens"])
+            table.setdefault(name, {})[n] = (d["handle"], w, d["chars"], d["tokens"], d.get("pycalls", 0))
     # doubling: work(2n) <= 2*work(n) + slack, for lexer and cursor work alike
     for name, row in table.items():
         ns = sorted(row)
         for a, b in zip(ns, ns[1:]):
-            ha, wa, ca, ta = row[a]
-            hb, wb, cb, tb = row[b]
+            ha, wa, ca, ta, pa = row[a]
+            hb, wb, cb, tb, pb = row[b]
             # the input grew by cb/ca characters and tb/ta tokens (numbered names get longer): the work may grow by the same factor
             if hb > ha * (cb / ca) * 1.02 + 40 or (ta and wb > wa * (tb / ta) * 1.02 + 150):
                 fails.append({"kind": "input", "stream": name, "text": FAMILIES[name](b)[:400], "request": "COUNT statements MYSQL " + stmt.cps(FAMILIES[name](b)),
                               "family": name, "n": b,
                               "oracle_verdict": "doubling the pattern %r from %d to %d more than doubles the work: handle %d -> %d, cursor work %d -> %d" % (name, a, b, ha, hb, wa, wb)})
+            elif pa and pb > pa * max(cb / ca, (tb / ta) if ta else 1.0) * 1.05 + 400:
+                fails.append({"kind": "input", "stream": name, "text": FAMILIES[name](b)[:400], "request": "COUNT statements MYSQL " + stmt.cps(FAMILIES[name](b)),
+                              "family": name, "n": b,
+                              "oracle_verdict": "growing the pattern %r from %d to %d (%.2fx the characters, %.2fx the tokens) makes the library execute %.2fx the function calls (%d -> %d)"
+                                                % (name, a, b, cb / ca, (tb / ta) if ta else 0, pb / pa, pa, pb)})
     run.add_stream("scaled families", len(FAMILIES) * len(sizes), len(FAMILIES) * len(sizes),
                    [{"family": k, "sizes": list(sizes), "handle_calls": [table[k][n][0] for n in sizes if n in table[k]],
                      "cursor_work": [table[k][n][1] for n in sizes if n in table.get(k, {})]} for k in list(table)[:4]],
                    extra={"families": list(FAMILIES), "worst_cursor_work_per_token": round(worst, 1)})
     run.add_stream("random statements and mutants", len(rnd), len(set(s for _, s in rnd)), [])
-    run.cov["rule"] = ("22 input patterns (lists, operator chains, rows, statements, nesting, joins, arms, DDL columns, long literals / comments / blanks, and near-miss "
+    run.cov["rule"] = ("24 input patterns (lists, operator chains, rows, statements, nesting, joins, arms, DDL columns, long literals / comments / blanks, and near-miss "
                        "inputs that fail at the last token) at sizes n, 2n, 4n, ...; plus random statements and malformed mutants; counters are wrapped around "
-                       "FSMMachine.handle and every TokenScanner method from outside, the token list is a counting list subclass; wall time is not asserted")
+                       "FSMMachine.handle and every TokenScanner method from outside, the token list is a counting list subclass, every Python-level call inside the library is counted by a profile hook; wall time is not asserted")
     if (dis or not proofs_ok) and not fails:
         # search phase only (a proof or tie no longer checks): wall-clock ratios on scaled families, 3 of 3 repetitions
         for name in ("blanks", "long literal and comment", "select items", "joins", "statements", "nesting"):
